@@ -95,6 +95,8 @@ impl Buffer {
 
         // SAFETY: capacity was checked to be non-zero
         unsafe {
+            #[cfg(dashu_verif)]
+            let _site = crate::verif::FallibleSite::enter();
             let layout = Layout::array::<Word>(capacity).unwrap();
             let ptr = alloc::alloc::alloc(layout);
             if ptr.is_null() {
@@ -146,6 +148,8 @@ impl Buffer {
 
         // SAFETY: capacity was checked to be non-zero and the pointer is properly aligned
         unsafe {
+            #[cfg(dashu_verif)]
+            let _site = crate::verif::FallibleSite::enter();
             let old_layout = Layout::array::<Word>(self.capacity).unwrap();
             let new_layout = Layout::array::<Word>(capacity).unwrap();
             let new_ptr =
@@ -411,6 +415,8 @@ impl Buffer {
 
             // first shrink the buffer to tight
             // `Layout::array` cannot overflow here because self.capacity < Self::MAX_CAPACITY
+            #[cfg(dashu_verif)]
+            let _site = crate::verif::FallibleSite::enter();
             let old_layout = Layout::array::<Word>(me.capacity).unwrap();
             let new_layout = Layout::array::<Word>(me.len).unwrap();
             let new_ptr =
